@@ -628,6 +628,9 @@ func TestVFC12Sessions(t *testing.T) {
 		created    int64 // virtual seconds
 		lastAccept int64
 		loggedOut  bool
+		// eitherWay: a logout request carried this token next to another live
+		// one, and it is not known which of the two the server ended.
+		eitherWay bool
 	}
 
 	rapid.Check(t, func(t *rapid.T) {
@@ -682,6 +685,12 @@ func TestVFC12Sessions(t *testing.T) {
 				trace = append(trace, fmt.Sprintf("t=%d use(created=%d,out=%t)=%t", now, tk.created, tk.loggedOut, got))
 				const slack = 3
 				switch {
+				case tk.eitherWay:
+					// settled by what the server says now
+					tk.eitherWay = false
+					if !got {
+						tk.loggedOut = true
+					}
 				case tk.loggedOut:
 					if tk.created >= 0 {
 						usedAfterLogout = true
@@ -720,6 +729,47 @@ func TestVFC12Sessions(t *testing.T) {
 					tk.loggedOut = true
 				}
 				trace = append(trace, fmt.Sprintf("t=%d logout(created=%d) -> %d", now, tk.created, rec.Code))
+			},
+			"logout_with_two_cookies": func(t *rapid.T) {
+				// a browser that still has an older cookie of the same name
+				// (another path, an earlier login) sends both.  Whichever of
+				// them the server goes by: if it says "logged out", no token
+				// of that request may authenticate afterwards.
+				tk := rapid.SampledFrom(toks).Draw(t, "token")
+				other := rapid.SampledFrom([]string{"0123456789abcdef0123456789abcdef", "garbage", ""}).Draw(t, "other_cookie")
+				var otherTok *tok
+				if rapid.Bool().Draw(t, "other_is_a_token") && len(toks) > 1 {
+					otherTok = rapid.SampledFrom(toks).Draw(t, "other_token")
+					other = otherTok.val
+				}
+				liveFirst := rapid.Bool().Draw(t, "live_first")
+				r := httptest.NewRequest(http.MethodGet, "http://agh.vf.test/control/logout", nil)
+				if liveFirst {
+					r.AddCookie(&http.Cookie{Name: sessionCookieName, Value: tk.val})
+					r.AddCookie(&http.Cookie{Name: sessionCookieName, Value: other})
+				} else {
+					r.AddCookie(&http.Cookie{Name: sessionCookieName, Value: other})
+					r.AddCookie(&http.Cookie{Name: sessionCookieName, Value: tk.val})
+				}
+				rec := httptest.NewRecorder()
+				h.ServeHTTP(rec, r)
+				if rec.Code == http.StatusFound && strings.Contains(rec.Header().Get("Location"), "login") {
+					// a logout is only served to an authenticated request; if
+					// the other cookie cannot have been what authenticated it
+					// (garbage, or a token already logged out), this one was
+					switch {
+					case otherTok == nil || otherTok.loggedOut:
+						tk.loggedOut = true
+						vfC12.Class("session:logout_with_two_cookies_served")
+					case tk.loggedOut:
+						otherTok.loggedOut = true
+						vfC12.Class("session:logout_with_two_cookies_served")
+					default:
+						tk.eitherWay, otherTok.eitherWay = true, true
+						vfC12.Class("session:logout_with_two_live_cookies")
+					}
+				}
+				trace = append(trace, fmt.Sprintf("t=%d logout with two cookies (created=%d, live first=%t) -> %d", now, tk.created, liveFirst, rec.Code))
 			},
 			"advance": func(t *rapid.T) {
 				d := rapid.SampledFrom([]int64{1, 30, 50, 70, 1800, 3500, 3700, 43200, 86000, 87000, 5 * 86400, 29 * 86400, 31 * 86400}).Draw(t, "advance_s")
